@@ -422,6 +422,10 @@ func ruleLexProgress(c *Ctx) []Obligation {
 						barrier[b] = true
 						witness = "strictly decreasing counter bounded by the loop condition"
 					}
+					if isGrowingCounter(in, h) {
+						barrier[b] = true
+						witness = "strictly increasing counter tested against a bound fixed outside the loop"
+					}
 				}
 			}
 			// range loops over finite collections are fine
@@ -578,6 +582,47 @@ func isRangeLoop(h *ssa.BasicBlock) bool {
 }
 
 // isShrinkingCounter: `i = i - 1` feeding a phi at the loop header whose value is tested `> 0` by the loop condition.
+// isGrowingCounter: i = i + 1 on a loop-carried i that the loop tests with i < bound (or <=, !=), the bound being
+// fixed outside the loop (a value defined before it, or the length of one).
+func isGrowingCounter(in ssa.Instruction, h *ssa.BasicBlock) bool {
+	bo, ok2 := in.(*ssa.BinOp)
+	if !ok2 || bo.Op != token.ADD {
+		return false
+	}
+	if k, okk := constInt(bo.Y); !okk || k != 1 {
+		return false
+	}
+	phi, okp := bo.X.(*ssa.Phi)
+	if !okp || phi.Block() != h {
+		return false
+	}
+	outside := func(v ssa.Value) bool {
+		if _, isK := v.(*ssa.Const); isK {
+			return true
+		}
+		if _, isP := v.(*ssa.Parameter); isP {
+			return true
+		}
+		in2, isI := v.(ssa.Instruction)
+		return isI && in2.Block() != h && !h.Dominates(in2.Block())
+	}
+	for _, r := range *phi.Referrers() {
+		c2, okc := r.(*ssa.BinOp)
+		if !okc || c2.X != ssa.Value(phi) || (c2.Op != token.LSS && c2.Op != token.LEQ && c2.Op != token.NEQ) {
+			continue
+		}
+		if outside(c2.Y) {
+			return true
+		}
+		if call, isC := c2.Y.(*ssa.Call); isC {
+			if bi, isB := call.Call.Value.(*ssa.Builtin); isB && bi.Name() == "len" && outside(call.Call.Args[0]) {
+				return true
+			}
+		}
+	}
+	return false
+}
+
 func isShrinkingCounter(in ssa.Instruction, h *ssa.BasicBlock) bool {
 	bo, ok2 := in.(*ssa.BinOp)
 	if !ok2 || bo.Op != token.SUB {
